@@ -72,6 +72,11 @@ def lit_eq(o, v):
         return True
     if type(o) is not type(v):
         return False
+    if isinstance(o, types.UnionType):
+        return o == v
+    if hasattr(o, "__self__") and hasattr(v, "__self__") and hasattr(o, "__name__"):
+        # bound methods of equal receivers are the same literal (fresh object per access)
+        return o.__name__ == getattr(v, "__name__", None) and lit_eq(o.__self__, v.__self__)
     try:
         return canon(o) == canon(v)
     except Exception:
